@@ -2492,6 +2492,26 @@ def _c10_cases(corpus, rng, tier):
         for g in (1, 2, 50, 51, 70, 71, 100 - a, 101 - a, 102 - a, 200):
             if g > 0:
                 add("decq %d %s" % (tree.idx, hx(nest_message([2], a, nest_group(77, g)))), k="depth", g="msg+group", d=a + g)
+    # (d') valid but non-canonical scalars a parser has to accept: 32-bit types carrying more than 32
+    # bits (truncated), bool > 1, varints padded with continuation bytes (value, tag and length)
+    def pad(n, k=2):
+        b = bytearray(enc_varint(n)); b[-1] |= 0x80
+        return bytes(b) + b"\x80" * (k - 1) + b"\x00"
+    for m in msgs:
+        for num, (si, mi) in sorted(m.by_number.items()):
+            sl = m.slots[si]
+            x = sl.members[mi] if sl.kind == "u" else sl
+            if sl.kind == "m" or x.ty == "message" or rng.random() > (0.35 if tier == "quick" else 1.0):
+                continue
+            if WIRE_TYPE[x.ty] == 0:
+                val = rng.getrandbits(32)
+                wide = val | (rng.getrandbits(31) << 32) | (rng.getrandbits(1) << 63)
+                for body in (enc_varint(wide), pad(val), pad(val, rng.choice([1, 3, 5])) if val < (1 << 28) else pad(val & 0xff), enc_varint(rng.choice([2, 256, 1 << 63, M64]))):
+                    add("decq %d %s" % (m.idx, hx(enc_tag(num, 0) + body)), k="fuzz", g="noncanonical")
+                add("decq %d %s" % (m.idx, hx(pad((num << 3) | 0) + enc_varint(val & 0x7f))), k="fuzz", g="noncanonical")
+            elif x.ty in ("string", "bytes"):
+                add("decq %d %s" % (m.idx, hx(enc_tag(num, 2) + pad(3) + b"abc")), k="fuzz", g="noncanonical")
+                add("decq %d %s" % (m.idx, hx(enc_tag(num, 2) + b"\x04\xff\xfe\xc3\x28")), k="fuzz", g="invalid-utf8")
     # (e) length-delimited framing
     for _ in range(_n(tier, 150)):
         m = rng.choice(msgs)
